@@ -336,7 +336,12 @@ func (g *exprGen) step(ctx []*model.Value, env ref.Env, depth int) *ref.E {
 			return &ref.E{Op: "splat"}
 		case 16:
 			if depth > 0 {
-				return &ref.E{Op: rapid.SampledFrom([]string{"any_c", "all_c"}).Draw(t, "ac"), A: []*ref.E{g.pred(elems(), env, depth-1)}}
+				cond := g.pred(elems(), env, depth-1)
+				if rapid.IntRange(0, 2).Draw(t, "acsel") == 0 {
+					// a condition that yields nothing for some elements (they contribute no verdict)
+					cond = &ref.E{Op: "select", A: []*ref.E{cond}}
+				}
+				return &ref.E{Op: rapid.SampledFrom([]string{"any_c", "all_c"}).Draw(t, "ac"), A: []*ref.E{cond}}
 			}
 			return &ref.E{Op: "any"}
 		case 17:
